@@ -133,6 +133,56 @@ CHECKS["C19"] = {
     "note": _SS_NOTE, "design_ref": "5 (C19)",
 }
 
+CHECKS["C07"] = {
+    "engine": "stategraph+conform",
+    "technique": "explicit-state search over Clifford programs: BFS over the Cayley graph of the two-qubit Clifford group (11520 elements), BFS over all signed 3-qubit states with the full gate set, all programs to depth 3, trace programs of all signed states n<=4; each run through compress and re-executed in the reference model",
+    "text": "One shortest program per two-qubit Clifford unitary, every program over the 20-gate alphabet up to length 3 (n=2) / 2 (n=3), a full-alphabet shortest program for every signed 3-qubit "
+            "state extended by every gate, rewritten BFS traces of signed states for n<=6, redundant-pair insertions at every position and long repetitions: output state equals input state "
+            "(signed), gates on coupled pairs, cost equals the class cost, and the input QuantumCircuit is bit-identical before and after.",
+    "note": _E2_NOTE + " Unbounded program length is covered only through the listed long programs.", "design_ref": "5 (C07)",
+}
+CHECKS["C08"] = {
+    "engine": "smallscope+conform",
+    "technique": "exhaustive enumeration of all X/Z matrix pairs for n=2 and n=3 (complete in thorough, a residue class in quick), one-deviation neighbourhoods of valid groups for n=3..6, and the full grid entry point x qubit count 0..8 x 17 names",
+    "text": "Validity is decided by the model (pairwise symplectic products, span); validate() must agree on every input; preparation must raise on every invalid input and be correct on every valid "
+            "one; readout must raise or diagonalise every given operator. Every public entry point is probed on every (n, name) of a 9 x 17 grid: served iff one of the 20 advertised pairs.",
+    "note": _SS_NOTE, "design_ref": "5 (C08)",
+}
+_TOMO_NOTE = ("Trusted: the reference model, a 40-line dense simulator for the non-stabilizer probes, and the linearity reduction written out in DESIGN.md section 5 (C10): exactness for all density "
+              "matrices follows from the operator identity per (circuit, pattern) on the DELIVERED instruction lists plus the estimator being the stated linear functional on distributions, "
+              "both enumerated completely. Exact statistics are fed through a duck-typed get_counts() object with Qiskit's little-endian keys.")
+CHECKS["C10"] = {
+    "engine": "tomo",
+    "technique": "exhaustive enumeration of (configuration, circuit, pattern, point-mass outcome) for all 20 configurations, plus every signed stabilizer state of n<=3 (n=4 in thorough) end to end with exact affine-subspace statistics",
+    "text": "For every configuration the fitter is evaluated on the point mass of every outcome (n=6: 9 outcomes in quick, all 64 in thorough) and every reported (Pauli, value) pair is compared with "
+            "s*(-1)^(a.b) derived by conjugating through the delivered circuits in the model; keys must be exactly the 4^n Paulis. End to end: all 60/1080 signed stabilizer states (which span operator "
+            "space) with exact integer statistics, density matrix against the projector; non-stabilizer probes through a dense simulator.",
+    "note": _TOMO_NOTE, "design_ref": "5 (C10)",
+}
+CHECKS["C11"] = {
+    "engine": "tomo",
+    "technique": "exhaustive enumeration of ordered measured-qubit lists x all 2^N full-register point-mass outcomes x both fitters x both key modes; all signed stabilizer states of a 3-qubit register end to end",
+    "text": "All ordered m-subsets of N qubits for (m,N) in {(2,3),(2,4),(3,4),(3,5)} and list families up to N=8, each with the point mass on every full-register outcome, decide the marginalisation "
+            "and key embedding exactly; every signed 3-qubit stabilizer state x ordered pairs/permutations end to end, reduced density matrix against the model, in full-register and reduced modes.",
+    "note": _TOMO_NOTE, "design_ref": "5 (C11)",
+}
+CHECKS["C12"] = {
+    "engine": "tomo+stategraph",
+    "technique": "exhaustive enumeration of measured stabilizer groups (all groups x all signs x presentations for n<=3, all groups n=4 in thorough) x point-mass outcomes; all 60x60 (group, state) pairs at n=2 end to end",
+    "text": "Keys must be exactly the 2^n unsigned elements of the measured group (model expansion) with identity -> 1; values on every point mass must equal the sign/parity derived from the delivered "
+            "circuit; end to end every signed measured group against every signed stabilizer state for n=2, and 135 groups x a rotating subset of the 1080 states for n=3, against Tr(rho P).",
+    "note": _TOMO_NOTE, "design_ref": "5 (C12)",
+}
+CHECKS["C13"] = {
+    "engine": "histmc",
+    "technique": "explicit-state breadth-first search over call/mutation histories (38-event alphabet, depth 3 quick / 4 thorough), canonical-state deduplication, every call compared with a fresh-interpreter oracle",
+    "text": "Events: 23 public API calls on a tiny argument domain, 7 adversarial mutations of the most recent result and of the most recent arguments, and clearing the caches. Every history is "
+            "replayed on a freshly imported library; states are deduplicated on a value fingerprint of all module/class-level mutable package objects plus the aliasing of caller-held objects. "
+            "Invariants on every transition: result equals a fresh interpreter's (three hash seeds agree), arguments unchanged, replay deterministic.",
+    "note": "Trusted: the canonical-state abstraction (sound if the package keeps no cross-call memory outside module/class attributes), the serialiser. Bounded: depth and argument domain as stated.",
+    "design_ref": "5 (C13)",
+}
+
 NOT_YET = "check not built yet (work in progress in this session; planned as model checking, see DESIGN.md section 5)"
 
 
